@@ -17,7 +17,7 @@ TInit == Init /\ l = 1 /\ mio = FALSE
 TReset ==
     /\ IsEvent("reset")
     /\ mio' = (R.adapter \in {"mio10", "mio08", "mio07"})
-    /\ w' = Watched0 /\ flags' = {} /\ closed' = FALSE /\ parked' = FALSE /\ edge' = FALSE
+    /\ w' = Watched0 /\ flags' = {} /\ closed' = FALSE /\ parked' = FALSE /\ edge' = FALSE /\ ended' = FALSE
     /\ UNCHANGED <<viol, ivars>>
 
 TOp ==
@@ -35,7 +35,7 @@ TEnd ==
     /\ IsEvent("end")
     /\ viol' = viol \cup (IF R.status = "exited:0" THEN {}
                           ELSE IF R.status = "signaled:14" THEN {"probe_hung"} ELSE {"probe_died"})
-    /\ UNCHANGED <<w, flags, closed, parked, edge, mio, ivars>>
+    /\ UNCHANGED <<w, flags, closed, parked, edge, ended, mio, ivars>>
 
 TNext == TReset \/ TOp \/ TEnd
 TraceSpec == TInit /\ [][TNext]_<<vars, l, mio>>
